@@ -27,6 +27,23 @@ def _text(e):
     return ast.unparse(e)
 
 
+class Sym:
+    """an opaque object known by the access path it was reached through (`value`, `value.b`, `self.eval_const(value.b)`):
+    what a rule binds in env["__paths__"] under `<path>.<attr>` is the value of that attribute, whatever the parameter
+    of the helper under evaluation is called"""
+    def __init__(self, path):
+        self.path = path
+
+    def __repr__(self):
+        return "<%s>" % self.path
+
+    def __eq__(self, other):
+        return isinstance(other, Sym) and other.path == self.path
+
+    def __hash__(self):
+        return hash(self.path)
+
+
 def ev(e, env):
     """value of expression e; env maps names and dotted texts (e.g. 'self.OP_MAP') to Python values"""
     if isinstance(e, ast.Constant):
@@ -41,6 +58,11 @@ def ev(e, env):
         t = _text(e)
         if t in env:
             return env[t]
+        if "__paths__" in env:
+            base = ev(e.value, env)
+            if isinstance(base, Sym):
+                path = base.path + "." + e.attr
+                return env["__paths__"][path] if path in env["__paths__"] else Sym(path)
         raise Undecidable("unbound attribute %s" % t)
     if isinstance(e, (ast.Tuple, ast.List)):
         return tuple(ev(x, env) for x in e.elts)
@@ -108,6 +130,18 @@ def ev(e, env):
         if sub["__depth__"] > 20:
             raise Undecidable("call depth")
         return call(env["__funcs__"][e.func.id], [ev(a, env) for a in e.args], sub)
+    if "__paths__" in env and isinstance(e, ast.Call) and isinstance(e.func, ast.Attribute) and isinstance(e.func.value, ast.Name) and e.func.value.id == "self" and not e.keywords:
+        args = [ev(a, env) for a in e.args]
+        if e.func.attr in env.get("__methods__", {}):
+            # a helper method of the same class: evaluated, with the symbolic objects passed on
+            sub = {k: env[k] for k in ("__paths__", "__methods__", "__funcs__", "__globals__") if k in env}
+            sub.update(env.get("__globals__", {}))
+            sub["__depth__"] = env.get("__depth__", 0) + 1
+            if sub["__depth__"] > 20:
+                raise Undecidable("call depth")
+            return call(env["__methods__"][e.func.attr], args, sub)
+        path = "self.%s(%s)" % (e.func.attr, ", ".join(a.path if isinstance(a, Sym) else repr(a) for a in args))
+        return env["__paths__"][path] if path in env["__paths__"] else Sym(path)
     if isinstance(e, ast.Call) and isinstance(e.func, ast.Attribute) and e.func.attr in ("replace", "startswith", "endswith", "lower", "upper", "split", "count", "lstrip", "rstrip", "strip", "zfill") and not e.keywords:
         v = ev(e.func.value, env)
         if isinstance(v, str):
